@@ -4,7 +4,7 @@ Space: queries = every depth <= 2 query of the C01 segment alphabet, a filter co
 (the C02 one- and two-unit expressions over a reduced unit set), an invalid corpus (one
 or more queries per error class: syntax, type, name, index) and evaluation-time
 failures (recursion limit on deep documents) x documents = all JSON trees with <= 3
-nodes, the KINDS table, one deep document x 14 call paths: module-level find /
+nodes, the KINDS table, one deep document x 17 call paths: module-level find /
 finditer / find_one / compile().{find, apply, finditer, find_one} and the same seven
 through a fresh JSONPathEnvironment.
 Oracle (differential, no reference model): find == list(finditer) as [(location, value
@@ -20,7 +20,7 @@ from mc.gen import docs as gdocs
 PROPERTY = "C15"
 RULE = (
     "(702 structural queries + 2 900 filter queries + 60 invalid queries + deep-document cases) x "
-    "(all JSON trees with <=2 (quick) / <=3 (thorough) nodes + 47 kinds + deep documents) x 14 call paths; all paths must "
+    "(all JSON trees with <=2 (quick) / <=3 (thorough) nodes + 47 kinds + deep documents) x 17 call paths (14 + three through an environment that is created for the call and not kept); all paths must "
     "return the same [(location, value identity)] list / first element / exception class; distinct "
     "by construction; non-trivial = (query, document) pairs with a non-empty result or an error"
 )
@@ -43,7 +43,7 @@ INVALID = [
 
 def BOUNDS(tier):
     return {"structural_query_depth": 2, "filter_units": len(c02.U_SMALL), "invalid_queries": len(INVALID),
-            "documents": "all trees <=%d nodes + kinds + deep" % (2 if tier == "quick" else 3), "call_paths": 14}
+            "documents": "all trees <=%d nodes + kinds + deep" % (2 if tier == "quick" else 3), "call_paths": 17}
 
 
 class AtIteration(Exception):
@@ -74,6 +74,27 @@ def paths(jp, env):
         out[fam + ".compile.apply"] = lambda q, d, o=obj: ("list", lst(o.compile(q).apply(d)))
         out[fam + ".compile.finditer"] = lambda q, d, o=obj: ("list", lst(o.compile(q).finditer(d)))
         out[fam + ".compile.find_one"] = lambda q, d, o=obj: ("one", one(o.compile(q).find_one(d)))
+    # an environment that nobody keeps: created for the call, gone before the result is iterated
+    if env is not None:
+        E = type(env)
+        out["temporary_env.find"] = lambda q, d: ("list", lst(E().find(q, d)))
+
+        def tmp_fi(q, d):
+            it = E().finditer(q, d)
+            try:
+                return ("list", lst(it))
+            except Exception as e:  # noqa: BLE001
+                raise AtIteration(e) from None
+
+        def tmp_cfi(q, d):
+            it = E().compile(q).finditer(d)
+            try:
+                return ("list", lst(it))
+            except Exception as e:  # noqa: BLE001
+                raise AtIteration(e) from None
+
+        out["temporary_env.finditer"] = tmp_fi
+        out["temporary_env.compile.finditer"] = tmp_cfi
     return out
 
 
@@ -351,8 +372,8 @@ def run_shard(desc):
     for q in queries(desc):
         sh.states += 1
         for doc in docs:
-            sh.transitions += 14
-            sh.traces += 14
+            sh.transitions += len(get_paths())
+            sh.traces += len(get_paths())
             sh.evaluations += 1
             obs = observe_all(q, doc)
             base = obs["module.find"]
